@@ -62,6 +62,14 @@ void Lexeme::checkHexAndOctalPrefix()
 void Lexeme::checkVariousPrefixesAndSuffixes()
 {
     const char* kEnd = end();
+    if (kind() == LexemeKind::CharacterConstant
+            || kind() == LexemeKind::StringLiteral) {
+        // Only the encoding prefix counts, not the characters within quotes.
+        const char* quote = begin();
+        while (quote != kEnd && *quote != '\'' && *quote != '"')
+            ++quote;
+        kEnd = quote;
+    }
     for (const char* cur = begin(); cur != kEnd; ++cur) {
         switch (*cur) {
             case 'l':
